@@ -115,7 +115,7 @@ CONFIGS = {
     "compound": ["-fcompound-names"],
 }
 
-CORPUS = ["Sim1", "Sim2", "Sim3"]
+CORPUS = ["Sim1", "Sim2", "Sim3", "Sim4"]
 
 
 def build_program(asn1c, workdir, modname, config, harness_objs, cflags=SAN_CFLAGS, modfile=None, cfgflags=None):
